@@ -147,6 +147,29 @@ pub async fn advance_ms(ms: u64) {
     tokio::time::advance(std::time::Duration::from_millis(ms)).await;
 }
 
+thread_local! {
+    static RT: std::cell::Cell<Option<&'static tokio::runtime::Runtime>> = const { std::cell::Cell::new(None) };
+}
+
+/// Give the calling thread its own paused runtime and enter it for the rest of the thread's
+/// life (the runtime is leaked: worker threads are short-lived and few).
+pub fn enter_thread_runtime() {
+    if RT.with(|r| r.get()).is_some() {
+        return;
+    }
+    let rt: &'static tokio::runtime::Runtime = Box::leak(Box::new(runtime()));
+    let guard = rt.enter();
+    std::mem::forget(guard);
+    RT.with(|r| r.set(Some(rt)));
+}
+
+/// Advance the virtual clock of this thread's runtime and let the timer wheel fire.
+/// Hand-polled tasks are only flagged here; the caller polls them afterwards.
+pub fn advance(ms: u64) {
+    let rt = RT.with(|r| r.get()).expect("thread runtime");
+    rt.block_on(advance_ms(ms));
+}
+
 // ---------------------------------------------------------------------------------------------
 // scripted transport
 // ---------------------------------------------------------------------------------------------
